@@ -8,8 +8,9 @@ From RbpfV.gen Require Import ApiFx.
 Import ListNotations.
 Open Scope Z_scope.
 
-Arguments i_prog {prog vf helpers}. Arguments i_vf {prog vf helpers}. Arguments i_helpers {prog vf helpers}.
-Arguments i_jit {prog vf helpers}. Arguments i_cl {prog vf helpers}.
+Arguments i_prog {prog vf helpers calc}. Arguments i_vf {prog vf helpers calc}. Arguments i_helpers {prog vf helpers calc}.
+Arguments i_jit {prog vf helpers calc}. Arguments i_cl {prog vf helpers calc}.
+Arguments i_calc {prog vf helpers calc}. Arguments i_usage {prog vf helpers calc}.
 
 Section Fx.
 Variable prog : Type.
@@ -17,99 +18,120 @@ Variable vf : Type.
 Variable accepts : vf -> prog -> bool.
 Variable helpers : Type.
 Variable hadd : helpers -> Z -> helpers.
-Variable value : prog -> helpers -> Z + unit.
+Variable calc : Type.
+Variable value : prog -> helpers -> option (prog * calc) -> Z + unit.
+Variable cvalue : prog -> helpers -> Z + unit.
 Variable compilable : prog -> helpers -> bool.
 
-Notation ist := (ist prog vf helpers).
+Notation ist := (ist prog vf helpers calc).
 Notation out := VmApi.out.
 
 (** the argument of the call *)
-Inductive arg := AProg (p : prog) | AVf (v : vf) | AId (id : Z) | ANone.
+Inductive arg := AProg (p : prog) | AVf (v : vf) | AId (id : Z) | ACalc (c : calc) | ANone.
 
 Definition set_jit (s : ist) (c : option (prog * helpers)) : ist :=
-  {| i_prog := i_prog s; i_vf := i_vf s; i_helpers := i_helpers s; i_jit := c; i_cl := i_cl s |}.
+  {| i_prog := i_prog s; i_vf := i_vf s; i_helpers := i_helpers s; i_jit := c; i_cl := i_cl s; i_calc := i_calc s; i_usage := i_usage s |}.
 Definition set_cl (s : ist) (c : option (prog * helpers)) : ist :=
-  {| i_prog := i_prog s; i_vf := i_vf s; i_helpers := i_helpers s; i_jit := i_jit s; i_cl := c |}.
+  {| i_prog := i_prog s; i_vf := i_vf s; i_helpers := i_helpers s; i_jit := i_jit s; i_cl := c; i_calc := i_calc s; i_usage := i_usage s |}.
+Definition set_usage (s : ist) (u : option (prog * calc)) : ist :=
+  {| i_prog := i_prog s; i_vf := i_vf s; i_helpers := i_helpers s; i_jit := i_jit s; i_cl := i_cl s; i_calc := i_calc s; i_usage := u |}.
+Definition set_calc (s : ist) (c : calc) : ist :=
+  {| i_prog := i_prog s; i_vf := i_vf s; i_helpers := i_helpers s; i_jit := i_jit s; i_cl := i_cl s; i_calc := c; i_usage := i_usage s |}.
 
-(** [lp]: the program bound by FxRequireProg; [tmp]: the code just compiled *)
-Fixpoint run_fx (l : list fx) (a : arg) (s : ist) (lp : option prog) (tmp : option (prog * helpers)) : ist * out :=
+(** [lp]: the program bound by FxRequireProg; [tmp]: the code just compiled; [tu]: the table just computed; [tc]: the new calculator *)
+Fixpoint run_fx (l : list fx) (a : arg) (s : ist) (lp : option prog) (tmp : option (prog * helpers))
+    (tu : option (prog * calc)) (tc : option calc) : ist * out :=
   match l with
   | [] => (s, RUnit)
   | f :: l' =>
     match f with
     | FxVerifyField =>
       match a with
-      | AProg p => if accepts (i_vf s) p then run_fx l' a s lp tmp else (s, RErrVerifier)
+      | AProg p => if accepts (i_vf s) p then run_fx l' a s lp tmp tu tc else (s, RErrVerifier)
       | _ => (s, RErrVerifier)
       end
     | FxVerifyArgOnLoaded =>
       match a, i_prog s with
-      | AVf v, Some p => if accepts v p then run_fx l' a s lp tmp else (s, RErrVerifier)
-      | AVf v, None => run_fx l' a s lp tmp
+      | AVf v, Some p => if accepts v p then run_fx l' a s lp tmp tu tc else (s, RErrVerifier)
+      | AVf v, None => run_fx l' a s lp tmp tu tc
       | _, _ => (s, RErrVerifier)
       end
     | FxVerifyFieldOnLoaded =>
       match i_prog s with
-      | Some p => if accepts (i_vf s) p then run_fx l' a s lp tmp else (s, RErrVerifier)
-      | None => run_fx l' a s lp tmp
+      | Some p => if accepts (i_vf s) p then run_fx l' a s lp tmp tu tc else (s, RErrVerifier)
+      | None => run_fx l' a s lp tmp tu tc
       end
-    | FxOtherFallible _ => run_fx l' a s lp tmp            (* assumed to succeed: outside the model *)
-    | FxOther _ => run_fx l' a s lp tmp
+    | FxOtherFallible _ => run_fx l' a s lp tmp tu tc            (* assumed to succeed: outside the model *)
+    | FxOther _ => run_fx l' a s lp tmp tu tc
+    | FxValidateArg =>
+      match a with
+      | AProg p => run_fx l' a s lp tmp (Some (p, i_calc s)) tc        (* assumed to succeed *)
+      | _ => (s, RErrVerifier)
+      end
+    | FxSetUsage => match tu with Some u => run_fx l' a (set_usage s (Some u)) lp tmp tu tc | None => (s, RErrVerifier) end
+    | FxNewCalc => match a with ACalc c => run_fx l' a s lp tmp tu (Some c) | _ => (s, RErrVerifier) end
+    | FxValidateLoadedIntoUsage =>
+      match tc, i_prog s with
+      | Some c, Some p => run_fx l' a (set_usage s (Some (p, c))) lp tmp tu tc     (* assumed to succeed *)
+      | Some c, None => run_fx l' a s lp tmp tu tc
+      | None, _ => (s, RErrVerifier)
+      end
+    | FxSetCalc => match tc with Some c => run_fx l' a (set_calc s c) lp tmp tu tc | None => (s, RErrVerifier) end
     | FxSetProg =>
       match a with
-      | AProg p => run_fx l' a {| i_prog := Some p; i_vf := i_vf s; i_helpers := i_helpers s; i_jit := i_jit s; i_cl := i_cl s |} lp tmp
+      | AProg p => run_fx l' a {| i_prog := Some p; i_vf := i_vf s; i_helpers := i_helpers s; i_jit := i_jit s; i_cl := i_cl s; i_calc := i_calc s; i_usage := i_usage s |} lp tmp tu tc
       | _ => (s, RErrVerifier)
       end
     | FxSetVerifier =>
       match a with
-      | AVf v => run_fx l' a {| i_prog := i_prog s; i_vf := v; i_helpers := i_helpers s; i_jit := i_jit s; i_cl := i_cl s |} lp tmp
+      | AVf v => run_fx l' a {| i_prog := i_prog s; i_vf := v; i_helpers := i_helpers s; i_jit := i_jit s; i_cl := i_cl s; i_calc := i_calc s; i_usage := i_usage s |} lp tmp tu tc
       | _ => (s, RErrVerifier)
       end
-    | FxClear e => run_fx l' a (if String.eqb e "jit" then set_jit s None else set_cl s None) lp tmp
+    | FxClear e => run_fx l' a (if String.eqb e "jit" then set_jit s None else set_cl s None) lp tmp tu tc
     | FxInsertHelper =>
       match a with
-      | AId id => run_fx l' a {| i_prog := i_prog s; i_vf := i_vf s; i_helpers := hadd (i_helpers s) id; i_jit := i_jit s; i_cl := i_cl s |} lp tmp
+      | AId id => run_fx l' a {| i_prog := i_prog s; i_vf := i_vf s; i_helpers := hadd (i_helpers s) id; i_jit := i_jit s; i_cl := i_cl s; i_calc := i_calc s; i_usage := i_usage s |} lp tmp tu tc
       | _ => (s, RErrVerifier)
       end
-    | FxTakeExecMem => run_fx l' a s lp tmp               (* executable memory is not part of this state machine *)
+    | FxTakeExecMem => run_fx l' a s lp tmp tu tc               (* executable memory is not part of this state machine *)
     | FxRequireProg =>
       match i_prog s with
-      | Some p => run_fx l' a s (Some p) tmp
+      | Some p => run_fx l' a s (Some p) tmp tu tc
       | None => (s, RErrNoProgram)
       end
     | FxCompile _ =>
       match lp with
-      | Some p => if compilable p (i_helpers s) then run_fx l' a s lp (Some (p, i_helpers s)) else (s, RErrCompile)
+      | Some p => if compilable p (i_helpers s) then run_fx l' a s lp (Some (p, i_helpers s)) tu tc else (s, RErrCompile)
       | None => (s, RErrNoProgram)
       end
-    | FxStore e => run_fx l' a (if String.eqb e "jit" then set_jit s tmp else set_cl s tmp) lp tmp
+    | FxStore e => run_fx l' a (if String.eqb e "jit" then set_jit s tmp else set_cl s tmp) lp tmp tu tc
     end
   end.
 
-Definition fx_call (l : list fx) (a : arg) (s : ist) : ist * out := run_fx l a s None None.
+Definition fx_call (l : list fx) (a : arg) (s : ist) : ist * out := run_fx l a s None None None None.
 
-Notation i_step := (i_step prog vf accepts helpers hadd value compilable).
+Notation i_step := (i_step prog vf accepts helpers hadd calc value cvalue compilable).
 
-Lemma ist_eta (s : ist) : {| i_prog := i_prog s; i_vf := i_vf s; i_helpers := i_helpers s; i_jit := i_jit s; i_cl := i_cl s |} = s.
+Lemma ist_eta (s : ist) : {| i_prog := i_prog s; i_vf := i_vf s; i_helpers := i_helpers s; i_jit := i_jit s; i_cl := i_cl s; i_calc := i_calc s; i_usage := i_usage s |} = s.
 Proof. destruct s; reflexivity. Qed.
 
 Theorem fx_is_api (s : ist) :
-  (forall p, fx_call gen_fx_set_program (AProg p) s = i_step s (OSetProgram _ _ p)) /\
-  (forall v, fx_call gen_fx_set_verifier (AVf v) s = i_step s (OSetVerifier _ _ v)) /\
-  (forall id, fx_call gen_fx_register_helper (AId id) s = i_step s (ORegisterHelper _ _ id)) /\
-  fx_call gen_fx_set_stack_usage_calculator ANone s = i_step s (OSetCalc _ _) /\
-  fx_call gen_fx_jit_compile ANone s = i_step s (OJitCompile _ _) /\
-  fx_call gen_fx_cranelift_compile ANone s = i_step s (OCraneliftCompile _ _).
+  (forall p, fx_call gen_fx_set_program (AProg p) s = i_step s (OSetProgram _ _ _ p)) /\
+  (forall v, fx_call gen_fx_set_verifier (AVf v) s = i_step s (OSetVerifier _ _ _ v)) /\
+  (forall id, fx_call gen_fx_register_helper (AId id) s = i_step s (ORegisterHelper _ _ _ id)) /\
+  (forall c, fx_call gen_fx_set_stack_usage_calculator (ACalc c) s = i_step s (OSetCalc _ _ _ c)) /\
+  fx_call gen_fx_jit_compile ANone s = i_step s (OJitCompile _ _ _) /\
+  fx_call gen_fx_cranelift_compile ANone s = i_step s (OCraneliftCompile _ _ _).
 Proof.
   unfold fx_call, gen_fx_set_program, gen_fx_set_verifier, gen_fx_register_helper, gen_fx_set_stack_usage_calculator,
     gen_fx_jit_compile, gen_fx_cranelift_compile.
-  destruct s as [sp sv sh sj sc].
-  split; [intros p|split; [intros v|split; [intros id|split; [|split]]]];
-    cbn [run_fx i_step String.eqb Ascii.eqb Bool.eqb set_jit set_cl i_prog i_vf i_helpers i_jit i_cl].
+  destruct s as [sp sv sh sj sc sk su].
+  split; [intros p|split; [intros v|split; [intros id|split; [intros c|split]]]];
+    cbn [run_fx i_step String.eqb Ascii.eqb Bool.eqb set_jit set_cl set_usage set_calc i_prog i_vf i_helpers i_jit i_cl i_calc i_usage].
   - destruct (accepts sv p); reflexivity.
   - destruct sp as [p|]; [destruct (accepts v p)|]; reflexivity.
   - reflexivity.
-  - reflexivity.
+  - destruct sp as [p|]; reflexivity.
   - destruct sp as [p|]; [destruct (compilable p sh)|]; reflexivity.
   - destruct sp as [p|]; [destruct (compilable p sh)|]; reflexivity.
 Qed.
